@@ -76,6 +76,46 @@ func ruleCallGuards(c *Ctx) {
 			Guards: []Guard{{ID: "script-correct", Doc: "a dynamic script passes the static script check before being loaded", Alts: [][]string{{"pkg/smartcontract/scparser.IsScriptCorrect"}}}},
 		},
 	})
+	// "calling a method marked safe never modifies state whatever flags the caller passes" holds for *every* way into
+	// the loader: either callExFromNative clears WriteStates|AllowNotify for a safe method itself, or each function that
+	// calls it does so on every path to the call (under the assumption that the method is safe)
+	safeMask := [][]string{{"op:&^", "pkg/smartcontract/callflag.WriteStates", "pkg/smartcontract/callflag.AllowNotify"}}
+	stripsBefore := func(fd *FuncDecl, target string) (bool, int) {
+		f := c.P.NewFuncCFG(fd)
+		if f == nil {
+			return false, 0
+		}
+		sites := f.CallSites(target)
+		if len(sites) == 0 {
+			return false, 0
+		}
+		ok, _, _ := f.CheckMustNode(f.Entry(), blocksOf(sites), symAssume("pkg/smartcontract/manifest#Safe", true), safeMask[0]...)
+		return ok, len(sites)
+	}
+	if cx := c.P.Func(fnCX[0], fnCX[1], fnCX[2]); cx == nil {
+		c.Lost("safe-strip.anchor", "callExFromNative not found")
+	} else if ok, n := stripsBefore(cx, "pkg/vm.(*VM).LoadNEFMethod"); ok && n > 0 {
+		c.OK("safe-strip.callExFromNative", c.P.Pos(cx.Decl.Pos()), "the common loading function clears WriteStates|AllowNotify for a safe method")
+	} else {
+		ncallers := 0
+		for _, fd := range c.P.AllFuncDecls() {
+			if fd.Decl.Body == nil || fd.Obj == cx.Obj {
+				continue
+			}
+			ok, n := stripsBefore(fd, symCX)
+			if n == 0 {
+				continue
+			}
+			ncallers++
+			key := "safe-strip." + FuncKey(fd.Obj)
+			if ok {
+				c.OK(key, c.P.Pos(fd.Decl.Pos()), "a safe method is loaded with WriteStates|AllowNotify cleared on every path through this caller")
+			} else {
+				c.Fail(key, c.P.Pos(fd.Decl.Pos()), FuncKey(fd.Obj)+" reaches the contract loader without clearing WriteStates|AllowNotify for a method the manifest marks safe: a safe-marked method invoked on this path (a payment or deploy callback issued by a native contract) runs with write and notify permission")
+			}
+		}
+		c.Floor("callers of callExFromNative", ncallers, 2)
+	}
 	// the flags handed to the loaders are the masked variable itself
 	argIs := func(key string, fn [3]string, callee string, idx int, want string) {
 		fd := c.P.Func(fn[0], fn[1], fn[2])
